@@ -141,3 +141,124 @@ theorem vp_roundtrip (id addr pwr rest : Bytes) (hid : id.length = 32) (ha : add
     simp [this]
 
 end Aergo.Gov
+
+namespace Aergo.Gov
+
+/-! ### Lists of records -/
+
+/-- One element of a persisted vote list. -/
+def elemSer (ex : Bool) (e : Bytes × Bytes) : Bytes := if ex then serVoteEx e.1 e.2 else serVote e.1 e.2
+
+/-- The framing condition of one element. -/
+def ElemOk (ex : Bool) (e : Bytes × Bytes) : Prop :=
+  (if ex then e.1.length < 2 ^ 64 else (e.1.length % 39 = 0 ∧ e.2.length < 39)) ∧ (elemSer ex e).length < 2 ^ 64
+
+theorem serVoteList_cons (ex : Bool) (e : Bytes × Bytes) (r : List (Bytes × Bytes)) :
+    serVoteList ex (e :: r) = le64 (elemSer ex e).length ++ elemSer ex e ++ serVoteList ex r := by
+  obtain ⟨c, a⟩ := e
+  simp only [serVoteList, elemSer]
+
+theorem serVoteList_length_ge (ex : Bool) : ∀ l : List (Bytes × Bytes), l.length ≤ (serVoteList ex l).length
+  | [] => by simp [serVoteList]
+  | e :: r => by
+    rw [serVoteList_cons]
+    have := serVoteList_length_ge ex r
+    have h8 := le64_length (elemSer ex e).length
+    simp [h8]; omega
+
+theorem deserVoteListAux_ser (ex : Bool) :
+    ∀ (l : List (Bytes × Bytes)) (f : Nat), l.length < f → (∀ e ∈ l, ElemOk ex e) →
+      deserVoteListAux ex f (serVoteList ex l) = some l
+  | [], f, hf, _ => by
+    cases f with
+    | zero => omega
+    | succ f => simp [deserVoteListAux, serVoteList]
+  | e :: r, f, hf, hok => by
+    cases f with
+    | zero => simp at hf
+    | succ f =>
+      have he := hok e List.mem_cons_self
+      have ih := deserVoteListAux_ser ex r f (by simp at hf; omega) (fun x hx => hok x (List.mem_cons_of_mem _ hx))
+      rw [serVoteList_cons]
+      obtain ⟨s, hs⟩ : ∃ s, s = elemSer ex e := ⟨_, rfl⟩
+      rw [← hs]
+      have hlen : s.length < 2 ^ 64 := by rw [hs]; exact he.2
+      have h8 := le64_length s.length
+      unfold deserVoteListAux
+      have e1 : (le64 s.length ++ s ++ serVoteList ex r).isEmpty = false := by
+        cases hle : le64 s.length with
+        | nil => rw [hle] at h8; simp at h8
+        | cons x t => simp
+      have e2 : ¬ (le64 s.length ++ s ++ serVoteList ex r).length < 8 := by simp [h8]
+      have t8 : (le64 s.length ++ s ++ serVoteList ex r).take 8 = le64 s.length := by
+        rw [List.append_assoc, ← h8]; exact take_append_len _ _
+      have d8 : (le64 s.length ++ s ++ serVoteList ex r).drop 8 = s ++ serVoteList ex r := by
+        rw [List.append_assoc, ← h8]; exact drop_append_len _ _
+      have e3 : ¬ (le64 s.length ++ s ++ serVoteList ex r).length < 8 + s.length := by simp [h8]
+      have d8s : (le64 s.length ++ s ++ serVoteList ex r).drop (8 + s.length) = serVoteList ex r := by
+        have : 8 + s.length = (le64 s.length ++ s).length := by simp [h8]
+        rw [this]; exact drop_append_len _ _
+      simp only [e1, Bool.false_eq_true, if_false, e2, t8, leNat_le64 hlen, e3, d8, take_append_len, d8s, ih]
+      have hdec : (if ex = true then deserVoteEx s else some (deserVote s)) = some e := by
+        obtain ⟨c, a⟩ := e
+        cases ex with
+        | true =>
+          simp only [hs, elemSer, if_true]
+          exact voteEx_roundtrip c a (by simpa [ElemOk] using he.1)
+        | false =>
+          simp only [hs, elemSer, Bool.false_eq_true, if_false]
+          have := he.1; simp only [Bool.false_eq_true, if_false] at this
+          rw [vote_roundtrip c a this.1 this.2]
+      rw [hdec]
+
+/-- Persisted vote list (the ranking) round trip: every element framed correctly. -/
+theorem voteList_roundtrip (ex : Bool) (l : List (Bytes × Bytes)) (hok : ∀ e ∈ l, ElemOk ex e) :
+    deserVoteList ex (serVoteList ex l) = some l := by
+  unfold deserVoteList
+  exact deserVoteListAux_ser ex l _ (by have := serVoteList_length_ge ex l; omega) hok
+
+/-- The well-formedness of one persisted voting-power entry. -/
+def VpOk (e : Bytes × Bytes × Bytes) : Prop := e.1.length = 32 ∧ e.2.1.length < 65536 ∧ e.2.2.length < 65536
+
+theorem marshalBucket_length_ge : ∀ l : List (Bytes × Bytes × Bytes), l.length ≤ (marshalBucket l).length
+  | [] => by simp [marshalBucket]
+  | (id, addr, pwr) :: r => by
+    have := marshalBucket_length_ge r
+    simp [marshalBucket, marshalVP, le16_length]; omega
+
+theorem unmarshalBucketAux_marshal :
+    ∀ (l : List (Bytes × Bytes × Bytes)) (f : Nat), l.length < f → (∀ e ∈ l, VpOk e) →
+      unmarshalBucketAux f (marshalBucket l) = some l
+  | [], f, hf, _ => by
+    cases f with
+    | zero => omega
+    | succ f => simp [unmarshalBucketAux, marshalBucket]
+  | (id, addr, pwr) :: r, f, hf, hok => by
+    cases f with
+    | zero => simp at hf
+    | succ f =>
+      have he : VpOk (id, addr, pwr) := hok _ List.mem_cons_self
+      have ih := unmarshalBucketAux_marshal r f (by simp at hf; omega) (fun x hx => hok x (List.mem_cons_of_mem _ hx))
+      simp only [marshalBucket]
+      unfold unmarshalBucketAux
+      have hne : (marshalVP id addr pwr ++ marshalBucket r).isEmpty = false := by
+        have : 0 < (marshalVP id addr pwr ++ marshalBucket r).length := by
+          simp [marshalVP, le16_length, he.1]; omega
+        cases hm : marshalVP id addr pwr ++ marshalBucket r with
+        | nil => rw [hm] at this; simp at this
+        | cons x t => simp
+      rw [vp_roundtrip id addr pwr (marshalBucket r) he.1 he.2.1 he.2.2]
+      simp only [hne, Bool.false_eq_true, if_false]
+      have hd : (marshalVP id addr pwr ++ marshalBucket r).drop (36 + addr.length + pwr.length) = marshalBucket r := by
+        have : 36 + addr.length + pwr.length = (marshalVP id addr pwr).length := by
+          simp [marshalVP, le16_length, he.1]; omega
+        rw [this]; exact drop_append_len _ _
+      rw [hd, ih]
+
+/-- Persisted voting-power bucket round trip. -/
+theorem bucket_roundtrip (l : List (Bytes × Bytes × Bytes)) (hok : ∀ e ∈ l, VpOk e) :
+    unmarshalBucket (marshalBucket l) = some l := by
+  unfold unmarshalBucket
+  exact unmarshalBucketAux_marshal l _ (by have := marshalBucket_length_ge l; omega) hok
+
+end Aergo.Gov
